@@ -265,6 +265,19 @@ void sim_violation(const char *cls, const char *fmt, ...) {
 		abort();
 	}
 }
+void sim_violation_deferred(const char *cls, const char *fmt, ...) {
+	/* a deviation that must not stop the run (so that it cannot hide other oracles): reported at the end of the run
+	 * if nothing else was violated */
+	va_list ap;
+	if (S.deferred) return;
+	S.deferred = 1;
+	snprintf(S.dclass, sizeof(S.dclass), "%s", cls);
+	va_start(ap, fmt);
+	vsnprintf(S.ddetail, sizeof(S.ddetail), fmt, ap);
+	va_end(ap);
+	if (S.ctx_tag[0]) { size_t l = strlen(S.ddetail); snprintf(S.ddetail + l, sizeof(S.ddetail) - l, " [ctx: %s]", S.ctx_tag); }
+	if (sim_trace_on) fprintf(stderr, "[t=%llu s=%llu f=%d] DEFERRED %s: %s\n", (unsigned long long)S.now, (unsigned long long)S.step, S.cur, S.dclass, S.ddetail);
+}
 int sim_violated(void) { return S.violated; }
 void sim_set_context_tag(const char *tag) { snprintf(S.ctx_tag, sizeof(S.ctx_tag), "%s", tag ? tag : ""); }
 const char *sim_cur_site(void) {
@@ -707,6 +720,12 @@ void sim_begin(const plan_t *plan) {
 
 void sim_end(sim_result_t *res) {
 	memset(res, 0, sizeof(*res));
+	if (!S.violated && S.deferred) {
+		S.violated = 1;
+		memcpy(S.vclass, S.dclass, sizeof(S.vclass));
+		memcpy(S.detail, S.ddetail, sizeof(S.detail));
+		snprintf(S.vsite, sizeof(S.vsite), "deferred");
+	}
 	res->violated = S.violated;
 	memcpy(res->vclass, S.vclass, sizeof(res->vclass));
 	memcpy(res->detail, S.detail, sizeof(res->detail));
